@@ -496,18 +496,37 @@ pub fn orchestrate(args: &Args) -> i32 {
         let replays = std::env::var("VERIF_REPLAY_DIR").map(PathBuf::from).unwrap_or_else(|_| args.verif.join("replays"));
         std::fs::create_dir_all(&replays).ok();
         let per = (90 / new_viol.len().max(1) as u64).max(10);
+        let mut hang_confirms = 0;
         for (i, (sig, v)) in new_viol.iter().enumerate() {
             let sc = v["scenario"].clone();
-            let min = if i < 8 { minimise(&mut ctx, &spec, &sc, sig, per) } else { sc.clone() };
+            // every re-execution of a hang costs a full watchdog period: hangs are not minimised, and only the
+            // first three hang signatures are re-executed (the others are the same defect seen through other calls)
+            let is_hang = sig.ends_with("/hang") || sig.contains("/hang/");
+            if is_hang && hang_confirms >= 3 {
+                let name = format!("{}-s{}-r{}-{:08x}.json", spec.id, args.seed, v["r"], hash_str(sig) as u32);
+                let path = replays.join(name);
+                let rep = json!({"property": spec.id, "engine": spec.engine, "class": v["class"], "sig": sig, "msg": v["msg"], "seed": args.seed, "tier": args.tier, "run": v["r"], "occurrences": sig_counts.get(sig), "replay_exact": "not re-executed (hang; three sibling hang signatures were re-executed and reproduced)", "scenario": sc});
+                let _ = std::fs::write(&path, serde_json::to_string_pretty(&rep).unwrap_or_default());
+                println!("VIOLATION property={} replay={}", spec.id, path.display());
+                println!("  what: {}", first_line(v["msg"].as_str().unwrap_or(""), 400));
+                println!("  signature: {}", sig);
+                replay_paths.push(path.display().to_string());
+                continue;
+            }
+            let min = if i < 8 && !is_hang { minimise(&mut ctx, &spec, &sc, sig, per) } else { sc.clone() };
             // confirm in the orchestrator process that the minimised scenario still fails the same way
             let confirmed = reproduces(&mut ctx, &spec, &min, sig, "confirm");
             let (final_sc, msg, reproduced) = match confirmed {
                 Some(vv) => (min, vv.msg, true),
+                None if is_hang => (sc.clone(), v["msg"].as_str().unwrap_or("").to_string(), false),
                 None => match reproduces(&mut ctx, &spec, &sc, sig, "confirm0") {
                     Some(vv) => (sc.clone(), vv.msg, true),
                     None => (sc.clone(), v["msg"].as_str().unwrap_or("").to_string(), false),
                 },
             };
+            if is_hang && reproduced {
+                hang_confirms += 1;
+            }
             let name = format!("{}-s{}-r{}-{:08x}.json", spec.id, args.seed, v["r"], hash_str(sig) as u32);
             let path = replays.join(name);
             let rep = json!({
